@@ -5,6 +5,7 @@ import (
 	"fmt"
 	"hash/fnv"
 	"os"
+	"path/filepath"
 	"runtime"
 	"runtime/debug"
 	"strconv"
@@ -117,6 +118,17 @@ func NewCheck(t *testing.T, id string, rule string) *Check {
 		t.Fatalf("no oracle registered for %s", id)
 	}
 	go c.watchdog()
+	// regression tier: committed cases of the repaired defects, replayed first, bypassing every generator
+	if files, _ := filepath.Glob(filepath.Join(verifDirEarly(), "regressions", id+"-*.json")); len(files) > 0 {
+		p := c.rec.NewPart("regression_replays", "committed replay files of repaired defects (regressions/"+id+"-*.json)", false, true, "")
+		w := c.Worker(p)
+		for _, f := range files {
+			if prop, cs, err := ev.LoadCase(f); err == nil && prop == id {
+				w.JudgeSlow(cs)
+			}
+		}
+		w.Done()
+	}
 	// known findings: replay each listed open finding so that it is reported
 	for _, f := range c.rec.OpenFindings() {
 		if r := safe(c.oracle, f.Case()); r.Err != "" {
